@@ -168,6 +168,7 @@ def run_history(history, stop_at_first=False):
     importlib.reload(pv)
     importlib.reload(pt)
     inst = long_lived()
+    registered = set()
     for step, call in enumerate(history):
         kind = call[0]
         if kind == "parse":
@@ -177,14 +178,35 @@ def run_history(history, stop_at_first=False):
             who = f"parser:{v}"
         elif kind == "encode":
             _, e, spec = call
+            fresh = make_encoder(e)
+            if e in registered:
+                fresh.add_quantity_cls(c13.Metres, "value", "units")
             a = outcome_encode(inst[("encoder", e)], spec)
-            b = outcome_encode(make_encoder(e), spec)
+            b = outcome_encode(fresh, spec)
             who = f"encoder:{e}"
         elif kind == "encode-shared":
             _, e, spec = call
             m = build_shared(spec)
             a = outcome_encode(inst[("encoder", e)], spec, m)
             b = outcome_encode(make_encoder(e), spec, m)
+            who = f"encoder:{e}"
+        elif kind == "register":
+            # a quantity class is registered on the long-lived encoder part-way through
+            # its life; every fresh twin made afterwards gets the same registration
+            _, e, _ = call
+            inst[("encoder", e)].add_quantity_cls(c13.Metres, "value", "units")
+            registered.add(e)
+            continue
+        elif kind == "encode-q":
+            # a module that holds a value of that class (registered or not)
+            _, e, spec = call
+            m1 = gv.build_module(spec)
+            m1.append("QUANTITY_LIKE", c13.Metres(2.5, "km"))
+            fresh = make_encoder(e)
+            if e in registered:
+                fresh.add_quantity_cls(c13.Metres, "value", "units")
+            a = outcome_encode(inst[("encoder", e)], spec, m1)
+            b = outcome_encode(fresh, spec, m1)
             who = f"encoder:{e}"
         elif kind == "decode":
             _, v, tok = call
@@ -250,6 +272,11 @@ def texts():
                      lexemes)
 
 
+def small_specs(enc):
+    return st.sampled_from([[], [["A", 1]], [["g", {"grp": [["x", 1]]}]],
+                            [["A", {"q": [1, "m"]}], ["B", "s"]]])
+
+
 def specs(enc):
     return st.one_of(gv.modules(enc), c13.block_heavy(enc))
 
@@ -261,6 +288,8 @@ def calls():
         st.tuples(st.just("parse"), st.sampled_from(["default", "ISISv"]), t),
         st.tuples(st.just("vparse"), st.sampled_from(list(VALIDATE_FRESH)), t),
         *[st.tuples(st.just("encode"), st.just(e), specs(e)) for e in ENCODERS],
+        st.tuples(st.just("register"), st.sampled_from(ENCODERS), st.none()),
+        *[st.tuples(st.just("encode-q"), st.just(e), small_specs(e)) for e in ENCODERS],
         *[st.tuples(st.just("vencode"), st.just(dn),
                     specs({"Omni": "PVL"}.get(dn, dn)))
           for dn in VALIDATE_FRESH],
